@@ -28,15 +28,16 @@ func TestMain(m *testing.M) {
 
 type Case struct {
 	Entry      string   `json:"entry"`
-	Unpolled   int      `json:"unpolled"`   // input events left unpolled at shutdown (0..40)
-	Polled     int      `json:"polled"`     // events polled off before shutdown (varies the fill level)
-	ReadErr    int      `json:"readerr"`    // -1 never; k: a read error is injected after k further chunks
-	Cycles     int      `json:"cycles"`     // Suspend/Resume cycles before the final action
-	CycleInput int      `json:"cycleinput"` // unpolled input present at each intermediate Suspend
+	Unpolled   int      `json:"unpolled"`    // input events left unpolled at shutdown (0..40)
+	Polled     int      `json:"polled"`      // events polled off before shutdown (varies the fill level)
+	ReadErr    int      `json:"readerr"`     // -1 never; k: a read error is injected after k further chunks
+	Cycles     int      `json:"cycles"`      // Suspend/Resume cycles before the final action
+	CycleInput int      `json:"cycleinput"`  // unpolled input present at each intermediate Suspend
 	ResizeAway bool     `json:"resize_away"` // the window changes size while suspended and changes back after Resume
-	Actors     []string `json:"actors"`     // goroutines running during shutdown
-	Last       string   `json:"last"`       // fini | suspend
-	Post       []string `json:"post"`       // calls made afterwards
+	Redundant  int      `json:"redundant"`   // bit 0: Resume while running (refused) before each Suspend; bit 1: Suspend twice
+	Actors     []string `json:"actors"`      // goroutines running during shutdown
+	Last       string   `json:"last"`        // fini | suspend
+	Post       []string `json:"post"`        // calls made afterwards
 }
 
 const guardTime = 10 * time.Second
@@ -51,6 +52,7 @@ func genCase(t *rapid.T) Case {
 	c.Cycles = rapid.SampledFrom([]int{0, 0, 1, 2, 3}).Draw(t, "cycles")
 	c.CycleInput = rapid.SampledFrom([]int{0, 1, 10, 11, 25}).Draw(t, "cycleinput")
 	c.ResizeAway = rapid.IntRange(0, 2).Draw(t, "resizeaway") == 0
+	c.Redundant = rapid.SampledFrom([]int{0, 0, 1, 2, 3}).Draw(t, "redundant")
 	all := []string{"poller", "poster", "resizer", "shower", "setter", "channel", "stalled-channel"}
 	for _, a := range all {
 		if rapid.IntRange(0, 2).Draw(t, "actor-"+a) == 0 {
@@ -113,10 +115,31 @@ func loopCount() int {
 	c := 0
 	for _, g := range strings.Split(string(buf[:n]), "\n\n") {
 		if strings.Contains(g, "(*tScreen).inputLoop") || strings.Contains(g, "(*tScreen).mainLoop") {
+			if strings.Contains(g, "sync.(*WaitGroup).Done") {
+				// inside its deferred wg.Done: wg.Wait cannot return before the
+				// decrement, so a goroutine seen here after the wait has run all of
+				// its code and is only unwinding
+				continue
+			}
 			c++
 		}
 	}
 	return c
+}
+
+// lingering: how many of the screen's loops are still there once goroutines
+// that are merely unwinding had time to go. wg.Wait returns as soon as the
+// last deferred wg.Done has decremented the counter; the goroutine that called
+// it is then still visible to runtime.Stack for a moment (seen at the return
+// line of the loop, state runnable, on a loaded machine). A goroutine that is
+// really left behind is blocked and stays.
+func lingering(baseline int) int {
+	n := loopCount() - baseline
+	for i := 0; i < 500 && n > 0; i++ {
+		time.Sleep(2 * time.Millisecond)
+		n = loopCount() - baseline
+	}
+	return n
 }
 
 func channelEventsCount() int {
@@ -194,10 +217,23 @@ func prop(c Case) error {
 			tty.Feed([]byte("c"))
 		}
 		settle(tty)
-		if err := guard(fmt.Sprintf("Suspend (cycle %d, %d unpolled input events)", cyc, c.CycleInput), func() { _ = s.Suspend() }); err != nil {
+		what := ""
+		if c.Redundant&1 != 0 {
+			// a Resume on a running screen is refused; it must not disturb anything
+			what = " after a refused Resume on the running screen"
+			if err := guard("Resume on a running screen", func() { _ = s.Resume() }); err != nil {
+				return err
+			}
+		}
+		if err := guard(fmt.Sprintf("Suspend (cycle %d, %d unpolled input events)%s", cyc, c.CycleInput, what), func() { _ = s.Suspend() }); err != nil {
 			return err
 		}
-		if n := loopCount() - baseline; n > 0 {
+		if c.Redundant&2 != 0 {
+			if err := guard("a second Suspend on the suspended screen", func() { _ = s.Suspend() }); err != nil {
+				return err
+			}
+		}
+		if n := lingering(baseline); n > 0 {
 			return fmt.Errorf("after Suspend (cycle %d): %d tcell background goroutine(s) still running:\n%s", cyc, n, tcellStacks())
 		}
 		if c.ResizeAway {
@@ -412,7 +448,7 @@ wait:
 	if p := actorPanic.Load(); p != nil {
 		return fmt.Errorf("%v", p)
 	}
-	if n := loopCount() - baseline; n > 0 {
+	if n := lingering(baseline); n > 0 {
 		return fmt.Errorf("after %s: %d tcell background goroutine(s) still running:\n%s", c.Last, n, tcellStacks())
 	}
 
@@ -558,6 +594,9 @@ func classes(c Case) []string {
 		if c.ResizeAway {
 			out = append(out, "window-resized-while-suspended")
 		}
+		if c.Redundant != 0 {
+			out = append(out, "redundant-resume-or-suspend")
+		}
 	}
 	for _, a := range c.Actors {
 		out = append(out, "actor:"+a)
@@ -571,9 +610,21 @@ func classes(c Case) []string {
 func TestProp(t *testing.T) {
 	defer pbt.Recover(t)
 	_ = flag.Set("rapid.shrinktime", "40s")
-	pbt.Describe("rapid shutdown programs on a real terminfo screen over a fake tty with real goroutines: number of unpolled input events 0..40 (every fill level of the event queue and the chunk queue, incl. main loop parked on a full event queue and input loop parked on a full chunk queue), events polled before shutdown, a tty read error injected at a chosen point or never, 0-3 Suspend/Resume cycles with unpolled input present (after each Resume a typed key and a resize notification must be delivered), concurrent actors during shutdown (poller, poster, resize notifier, Show loop, SetContent loop, ChannelEvents consumer), final action Fini or Suspend, then a list of further Screen calls. Oracle: every Fini/Suspend/Resume and every later call returns within a 10 s guard without panic (on timeout the stacks of goroutines with tcell frames are attached); no inputLoop/mainLoop goroutine remains; after Fini PollEvent yields nil within 12 calls, ChannelEvents channels are closed, a second Fini makes no tty call. Non-trivial = shutdown begun with the event queue full or a read error pending; distinct = hash of the case.",
+	pbt.Describe("rapid shutdown programs on a real terminfo screen over a fake tty with real goroutines: number of unpolled input events 0..40 (every fill level of the event queue and the chunk queue, incl. main loop parked on a full event queue and input loop parked on a full chunk queue), events polled before shutdown, a tty read error injected at a chosen point or never, 0-3 Suspend/Resume cycles with unpolled input present (after each Resume a typed key and a resize notification must be delivered), concurrent actors during shutdown (poller, poster, resize notifier, Show loop, SetContent loop, ChannelEvents consumer), final action Fini or Suspend, then a list of further Screen calls. Oracle: every Fini/Suspend/Resume and every later call returns within a 10 s guard without panic (on timeout the stacks of goroutines with tcell frames are attached); no inputLoop/mainLoop goroutine remains; after Fini PollEvent yields nil within 12 calls, ChannelEvents channels are closed, a second Fini makes no tty call; devtty: the stock tty backend (tty_unix.go devTty) on the slave side of a fresh pseudo terminal: 1-25 Suspend/Resume cycles then Fini, with SIGWINCH signals arriving continuously, an optional poller and typed input; every Suspend/Resume/Fini returns within the guard and PollEvent returns nil afterwards. Non-trivial = shutdown begun with the event queue full or a read error pending; distinct = hash of the case.",
 		"liveness is checked as 'returns within 10 s' (the calls need microseconds); schedules are whatever the Go scheduler produces around deterministically constructed queue states",
 		"PollEvent after Fini may first hand out events that were already queued (at most the queue capacity) before returning nil",
 		"a poller blocked in PollEvent on a suspended (not finalised) screen is legitimate and is woken by the harness")
 	pbt.Check(t, "shutdown", pbt.Pick(250, 2500), pbt.Spec[Case]{Gen: genCase, Prop: prop, NonTrivial: nonTrivial, Classes: classes})
+	pbt.Check(t, "devtty", pbt.Pick(24, 600), pbt.Spec[DevCase]{Gen: genDev, Prop: devProp,
+		NonTrivial: func(c DevCase) bool { return c.Storm && c.Cycles >= 5 },
+		Classes: func(c DevCase) []string {
+			out := []string{"devtty:pty"}
+			if c.Storm {
+				out = append(out, "devtty:resize-signal-storm")
+			}
+			if c.Keys > 0 && !c.Poller {
+				out = append(out, "devtty:unpolled-typed-input")
+			}
+			return out
+		}})
 }
